@@ -64,6 +64,9 @@ struct World {
     queue: VecDeque<usize>,
     alias: Vec<(u32, u32)>, // node -> public address of its port-forwarding router (no hair-pinning)
     muted: Vec<u32>,        // nodes whose datagrams are currently lost on the way out
+    // (node i, port j) -> the IPv4-mapped form under which i last addressed j: a dual-stack socket shows the replies of an IPv4
+    // peer as coming from that form
+    forms: HashMap<(u32, u32), SocketAddr>,
 }
 
 impl World {
@@ -78,6 +81,18 @@ impl World {
         out.sort_by_key(|x| x.0.port()); // stable: keeps emission order per destination
         let mut toks = vec![];
         for (dst, data) in out {
+            let v4ish = match dst {
+                SocketAddr::V4(_) => true,
+                SocketAddr::V6(a6) => {
+                    let sg = a6.ip().segments();
+                    sg[0] == 0 && sg[1] == 0 && sg[2] == 0 && sg[3] == 0 && sg[4] == 0 && sg[5] == 0xffff
+                }
+            };
+            if v4ish {
+                self.forms.insert((i, dst.port() as u32), crate::net::mapped_addr(dst));
+            } else {
+                self.forms.remove(&(i, dst.port() as u32));
+            }
             toks.push(format!("{}:{}", dst.port(), kind_of(&data)));
             if !self.muted.contains(&i) {
                 self.queue.push_back(self.sent.len());
@@ -117,9 +132,10 @@ impl World {
         if !self.nodes.contains_key(&dst) {
             return "nodg".into();
         }
+        let from = self.forms.get(&(dst, src)).copied().unwrap_or_else(|| addr_of(src));
         let node = self.nodes.get_mut(&dst).unwrap();
         let accepted = with_node!(node, n => {
-            if n.v_socket().put_inbound(addr_of(src), data) {
+            if n.v_socket().put_inbound(from, data) {
                 n.v_socket_event();
                 true
             } else {
@@ -137,7 +153,7 @@ fn node_scenario(a: &[&str]) -> String {
     crate::crypto::verif_init::clear_salts();
     MockTimeSource::set_time(1);
     MockSocket::set_nat(false);
-    let mut w = World { nodes: HashMap::new(), ids: HashMap::new(), sent: vec![], queue: VecDeque::new(), alias: vec![], muted: vec![] };
+    let mut w = World { nodes: HashMap::new(), ids: HashMap::new(), sent: vec![], queue: VecDeque::new(), alias: vec![], muted: vec![], forms: HashMap::new() };
     let mut out: Vec<String> = vec![];
     for tok in a {
         let p: Vec<&str> = tok.split('.').collect();
@@ -210,6 +226,13 @@ fn node_scenario(a: &[&str]) -> String {
                     let i: u32 = num(p[1]);
                     let node = w.nodes.get_mut(&i).unwrap();
                     with_node!(node, n => { n.connect(addr_of(num(p[2]))).ok(); });
+                    w.collect(i)
+                }
+                "V" => {
+                    // V.<i>.<j>: node i learnt node j from a beacon, as a plain IPv4 address (the beacon path calls connect_sock directly)
+                    let i: u32 = num(p[1]);
+                    let node = w.nodes.get_mut(&i).unwrap();
+                    with_node!(node, n => n.v_connect_sock_v4(num::<u16>(p[2])));
                     w.collect(i)
                 }
                 "R" => {
